@@ -8,10 +8,11 @@ package simlock
 import "sync/atomic"
 
 // Hooks: Acquire must return with the lock held (it calls try until it
-// succeeds, parking the goroutine in between); Released is called after the
-// lock has been released.
+// succeeds, parking the goroutine in between, or - for a site it does not want
+// to schedule - simply calls lock); Released is called after the lock has been
+// released.
 type Hooks struct {
-	Acquire  func(site string, try func() bool)
+	Acquire  func(site string, try func() bool, lock func())
 	Released func(site string)
 }
 
@@ -26,7 +27,7 @@ func Install(h *Hooks) { hooks.Store(h) }
 func Lock(site string, try func() bool, lock func()) {
 	Sites.Add(1)
 	if h := hooks.Load(); h != nil {
-		h.Acquire(site, try)
+		h.Acquire(site, try, lock)
 		return
 	}
 	lock()
